@@ -58,10 +58,52 @@ Theorem C34_model_view_pred : forall t delay b, NoDup (ids b) ->
 Proof. exact model_view_pred. Qed.
 Print Assumptions C34_model_view_pred.
 
+(* ---- the compactor side, tied to lines of code ------------------------------------------
+
+   Statement order (events regenerated from pkg/compact/compact.go): in Group.compact
+   every cg.deleteBlock (= block.MarkForDeletion of a source, see deleteBlock) comes
+   after the loop that uploads the result and returns on an upload error (or sits
+   under `if meta.Stats.NumSamples == 0`); Syncer.GarbageCollect reads the deletion
+   marks and DuplicateIDs() before it marks. *)
+Theorem C34_compactor_order_facts : compactor_order_ok = true.
+Proof. exact compactor_order_facts. Qed.
+Print Assumptions C34_compactor_order_facts.
+
+(* Every operation log the guards accept keeps "each source is in an unmarked block"
+   (the hypothesis the protocol theorem needs from the compactor).  The check replays
+   the bucket operations of the real BucketCompactor.Compact through apply_log. *)
+Theorem C34_accepted_logs_keep_cover : forall u ops b b',
+  NoDup (ids b) -> U_cov u b -> apply_log b ops = Some b' -> NoDup (ids b') /\ U_cov u b'.
+Proof. exact apply_log_keeps. Qed.
+Print Assumptions C34_accepted_logs_keep_cover.
+
+(* FINDING (real code, corpus/C34/05): the rewrite of a single block (tombstone rule)
+   uploads a result with the SAME sources, marks the source, and the next garbage
+   collection marks the result as a duplicate of the just-marked source (equal source
+   sets tie-break on the older ULID; the source is still in the compactor's view for
+   deleteDelay/2).  The guard rejects that mark; afterwards no unmarked block holds the data. *)
+Theorem C34_rewrite_gc_refuted :
+  apply_log rw_bucket rw_ops = None /\ first_rejected rw_bucket rw_ops 0 = Some 2%nat
+  /\ covers [7] rw_bucket = true /\ covers [7] (apply_log_raw rw_bucket rw_ops) = false.
+Proof. exact rewrite_gc_rejected. Qed.
+Print Assumptions C34_rewrite_gc_refuted.
+
+(* ... and in the protocol with the code's garbage-collection rule as a step
+   (gc_enabled: hidden by the duplicate filter in the compactor's own view, not yet
+   marked), delays satisfying ignoreDelay + syncLag <= deleteDelay do not keep the
+   data served: C34_always_served holds for the guarded Mark step only. *)
+Theorem C34_code_gc_refuted :
+  exists st, run_code gc_params [7] (init gc_params rw_bucket 1) gc_schedule = Some st
+    /\ all_served [7] st = false
+    /\ ignoreDelay gc_params + syncLag gc_params <= deleteDelay gc_params
+    /\ covers [7] rw_bucket = true /\ NoDup (ids rw_bucket).
+Proof. exact code_gc_refuted. Qed.
+Print Assumptions C34_code_gc_refuted.
+
 (* Non-vacuity: a full replacement cycle under the default delays, two gateways. *)
 Example C34_nonvacuous :
-  let b := [mk_mblk (mk_blk 1 0 [7]) None; mk_mblk (mk_blk 2 0 [8]) None] in
-  let ls := [Upload (mk_blk 3 0 [7; 8]); Sync 0; Mark 1; Mark 2; Tick 900; Sync 1; Sync 0; Tick 900; Sync 0; Sync 1] in
+  let b := [mk_mblk (mk_blk 1 0 [7] 1) None; mk_mblk (mk_blk 2 0 [8] 1) None] in
+  let ls := [Upload (mk_blk 3 0 [7; 8] 1); Sync 0; Mark 1; Mark 2; Tick 900; Sync 1; Sync 0; Tick 900; Sync 0; Sync 1] in
   exists st, run default_params [7; 8] (init default_params b 2) ls = Some st
     /\ map view (gws st) = [[3]; [3]] /\ all_served [7; 8] st = true
     /\ covers [7; 8] b = true.
